@@ -596,6 +596,14 @@ class Engine:
         if k == "none":
             yield st, Raised(Exc(AttributeError, origin="None.%s line %d" % (attr, line)))
             return
+        if k == "opt":
+            # Opt[scalar]: None has no attributes; otherwise the attribute of the value
+            for st2, isn in self.branch(st, base.isnone):
+                if isn:
+                    yield st2, Raised(Exc(AttributeError, origin="None.%s line %d" % (attr, line)))
+                else:
+                    yield from self.getattr_(st2, base.val, attr, n)
+            return
         if k in ("module", "static", "class"):
             yield st, self.sym_value(base.py + ("." if ":" in base.py else ":") + attr)
             return
@@ -1931,6 +1939,8 @@ class Engine:
                 # ground instances for the values the variables of the accumulator's type had on loop entry
                 # (what invariants of the form  x == fold(_s, _i, pre(x))  need), plus the general axiom
                 grounds = [v.t for v in entry_vals if v.ty == fd["acc"] and v.t is not None]
+                if fd["acc"].kind == "seq":
+                    grounds.append(z3.Empty(sort_of(fd["acc"])))       # folds that start from the empty sequence
                 if which == "zero":
                     stt.assume(z3.ForAll([a0], ff(sq.t, z3.IntVal(0), a0) == a0))
                     for g0 in grounds:
